@@ -369,3 +369,27 @@ CORPUS += [
     V("C10", "eq-topk-flipped", DECP, "indices_to_remove = logits < torch.topk(logits, top_k)[0][..., -1, None]", "indices_to_remove = torch.topk(logits, top_k)[0][..., -1, None] > logits", None),
     V("C10", "eq-rename", DECP, "indices_to_remove", "drop", None, count=99),
 ]
+
+CPB = "rl4co/models/common/constructive/base.py"
+PPOF = "rl4co/models/rl/ppo/ppo.py"
+CORPUS += [
+    # ---------------------------------------------------------------- C11
+    V("C11", "step-append-only-actions-when-storing-all", DECP, "        self.actions.append(selected_action)\n        self.logprobs.append(logprobs)\n        return td", "        self.actions.append(selected_action)\n        if not self.store_all_logp:\n            self.logprobs.append(logprobs)\n        return td", "C11.a"),
+    V("C11", "step-gather-with-given-action", DECP, "logprobs = gather_by_index(logprobs, selected_action, dim=1)", "logprobs = gather_by_index(logprobs, action if action is not None else selected_action, dim=1)", "C11.b"),
+    V("C11", "step-unprocessed-logits", DECP, "        logprobs, selected_action, td = self._step(\n            logprobs, mask, td, action=action, **kwargs\n        )", "        logprobs, selected_action, td = self._step(\n            logits, mask, td, action=action, **kwargs\n        )", "C11.b"),
+    V("C11", "ll-gather-wrong-axis", DECP, "logprobs = logprobs.gather(-1, actions.unsqueeze(-1)).squeeze(-1)", "logprobs = logprobs.gather(1, actions.unsqueeze(-1)).squeeze(-1)", "C11.b"),
+    V("C11", "ll-mask-polarity", DECP, "        logprobs[~mask] = 0\n", "        logprobs[mask] = 0\n", "C11.b"),
+    V("C11", "ll-sum-wrong-axis", DECP, "        return logprobs.sum(1)  # [batch]", "        return logprobs.sum(0)  # [batch]", "C11.b"),
+    V("C11", "forced-start-nonzero-logprob", DECP, "logprobs = torch.zeros_like(action, device=td.device)  # [B]", "logprobs = torch.ones_like(action, device=td.device)  # [B]", "C11.d"),
+    V("C11", "replay-step-double-increment", CPB, "            step += 1\n            if step > max_steps:", "            step += 1\n            step += 1\n            if step > max_steps:", "C11.c"),
+    V("C11", "replay-increment-before-step", CPB, '''            logits, mask = self.decoder(td, hidden, num_starts)
+            td = decode_strategy.step(''', '''            logits, mask = self.decoder(td, hidden, num_starts)
+            step += 1
+            td = decode_strategy.step(''', "C11.c"),
+    V("C11", "replay-index-first-axis", CPB, "action=actions[..., step] if actions is not None else None,", "action=actions[step] if actions is not None else None,", "C11.c"),
+    V("C11", "ppo-ratio-sign", PPOF, 'ratio = torch.exp(ll.sum(dim=-1) - sub_td["logprobs"]).view(', 'ratio = torch.exp(sub_td["logprobs"] - ll.sum(dim=-1)).view(', "C11.e"),
+    V("C11", "ppo-old-ll-with-grad", PPOF, "        with torch.no_grad():\n            td = self.env.reset(batch)  # note: clone needed for dataloader\n            out = self.policy(td.clone(), self.env, phase=phase)", "        td = self.env.reset(batch)  # note: clone needed for dataloader\n        out = self.policy(td.clone(), self.env, phase=phase)", "C11.e"),
+    V("C11", "ppo-replay-without-actions", PPOF, '                        actions=sub_td["action"],\n', "", "C11.e"),
+    V("C11", "evaluate-ignores-action", DECP, '        """The action is provided externally, so we just return the action"""\n        selected = action', '        """The action is provided externally, so we just return the action"""\n        selected = logprobs.argmax(-1)', "C11.c"),
+    V("C11", "eq-rename-selected", DECP, "selected_action", "chosen", None, count=99),
+]
